@@ -17,10 +17,28 @@ PID = 'C19'
 LEAN_TARGETS = ['CfVerif.Props.C19']
 PROPS_MODULES = ['CfVerif.Props.C19']
 DRIVER = 'Driver/C19.lean'
-REQUIRED_THEOREMS = []
-TRUSTED = ['harness/corr/c19.py extractor + correspondence', 'harness/vsched (schedules explored; atomicity at yield-point granularity)']
-ASSUMPTIONS = []
-RULE = ''
+REQUIRED_THEOREMS = ['CfVerif.C19.' + t for t in (
+    'each_once_with_own_args', 'sequential_in_order', 'parallel_safe_returns_after_all', 'raises_iff_some_failed', 'cause_in_trace',
+    'parallel_never_raises', 'open_failure_closes_all_and_raises', 'no_double_open', 'open_twice_raises', 'no_deadlock',
+    'schedule_bounded', 'never_index_error', 'mkSwarm_nodup', 'mkSwarm_of_nodup', 'gen_spawn_loop', 'gen_join_loop', 'gen_raise',
+    'gen_wrapper', 'gen_reporter', 'gen_process_args', 'gen_sequential', 'gen_parallel', 'gen_open_links', 'gen_close_links',
+    'gen_ctor', 'gen_sync_crazyflie', 'gen_constants')]
+TRUSTED = ['harness/corr/c19.py extractor + correspondence (incl. the mapping of observed events to model steps)',
+           'Driver/C19.lean: eager insertion of main\'s silent steps when replaying an observed step sequence',
+           'harness/vsched: the schedules explored on the real code; atomicity at yield-point granularity plus the two trace points '
+           'inside Reporter.report_error',
+           'CPython: attribute stores and list.append are atomic; Thread.join returns only after the target has returned; dict iteration = insertion order']
+ASSUMPTIONS = ['actions raise only Exception subclasses (a BaseException such as SystemExit kills the member thread unreported) and terminate',
+               'the argument dictionary is None/empty or has an entry (a list/tuple) for every URI; with a missing entry parallel_safe raises '
+               'KeyError while already started threads keep running (modelled: Exc.keyError; outside the property; parallel still never raises)',
+               'one swarm-wide call at a time per Swarm object; cf.close_link() does not raise or block',
+               'SyncCrazyflie is modelled by its _is_link_open flag and the open/close guards; its event waiting (and defect D1, C02) is outside']
+RULE = ('cases = real Swarm (real SyncCrazyflie members over an instrumented fake Crazyflie) under vsched: for 1-2 members EVERY interleaving '
+        'x EVERY failing subset of parallel_safe / parallel / open_links, for 3-4 members every failing subset with bounded preemptions '
+        '(thorough: all interleavings for <= 1 failure), plus random multi-call scenarios (0-6 members, repeated URIs, None/empty/partial '
+        'argument dictionaries, open/close/pre-open sequences) under random schedules; the observed step sequence is replayed on the '
+        'Lean model, which must accept it and yield the same events, result, chained cause and link flags; distinct+non-trivial = '
+        'distinct (scenario, schedule choice list)')
 
 SWARM = 'cflib/crazyflie/swarm.py'
 SCF = 'cflib/crazyflie/syncCrazyflie.py'
